@@ -118,7 +118,8 @@ def main():
     checks = RELATED.get(prop, [prop])
     if "--checks" in sys.argv:
         checks = sys.argv[sys.argv.index("--checks") + 1].split(",")
-    sid = "%s-%s" % (prop, n)
+    off = int(sys.argv[sys.argv.index("--id-offset") + 1]) if "--id-offset" in sys.argv else 0
+    sid = "%s-%d" % (prop, int(n) + off)
     d = os.path.join(ROOT, "seeded", sid)
     os.makedirs(d, exist_ok=True)
     shutil.copy(os.path.join(src, "patch%s.diff" % n), os.path.join(d, "patch.diff"))
